@@ -29,7 +29,9 @@ func (s *sharedEntryAttributes) toXmlInternal(parent *etree.Element, onlyNewOrUp
 	switch s.schema.GetSchema().(type) {
 	case nil:
 		// This case represents a key level element. So no schema present. all child attributes need to be adedd directly to the parent element, since the key levels are not visible in the resulting xml.
-		if s.shouldDelete() {
+		// A list entry is deleted as a whole under the same condition as for the other encodings (its key leafs are to be deleted).
+		// That is only possible on the last key level, since the delete needs to carry all the keys.
+		if s.deletesWholeListEntry() {
 			// If the element is to be deleted
 			// add the delete operation to the parent element
 			utils.AddXMLOperation(parent, utils.XMLOperationDelete, operationWithNamespace, useOperationRemove)
